@@ -378,6 +378,10 @@ func wrap(value string) string {
 }
 
 func canEqual(tt types.Type) bool {
+	if named, isNamed := types.Unalias(tt).(*types.Named); isNamed && equalMethodInputParam(named) != nil {
+		// the Equal method decides, also when the type is a field of a struct that could be compared with ==.
+		return false
+	}
 	t := tt.Underlying()
 	switch typ := t.(type) {
 	case *types.Basic:
@@ -429,7 +433,7 @@ func equalMethodInputParam(typ *types.Named) *types.Type {
 }
 
 func (g *gen) field(thisField, thatField string, fieldType types.Type) (string, error) {
-	if named, isNamed := fieldType.(*types.Named); isNamed {
+	if named, isNamed := types.Unalias(fieldType).(*types.Named); isNamed {
 		inputType := equalMethodInputParam(named)
 		if inputType != nil {
 			ityp := *inputType
